@@ -157,6 +157,8 @@ func numOf(x Value) float64 {
 	return float64(x.I)
 }
 
+type rowsType []interface{}
+
 func keyString(v Value) string {
 	switch v.T {
 	case "str":
@@ -253,6 +255,23 @@ func toGo(v Value) interface{} {
 			out := make(tagsType, len(v.Xs))
 			for i, x := range v.Xs {
 				out[i] = textOf(x.S, nil, false)
+			}
+			return out
+		case "u64s": // []uint64 (elements may be given by their digits)
+			out := make([]uint64, len(v.Xs))
+			for i, x := range v.Xs {
+				switch n := toGo(x).(type) {
+				case int:
+					out[i] = uint64(n)
+				case uint64:
+					out[i] = n
+				}
+			}
+			return out
+		case "rows": // a named type over []interface{}
+			out := make(rowsType, len(v.Xs))
+			for i, x := range v.Xs {
+				out[i] = toGo(x)
 			}
 			return out
 		case "i64s":
